@@ -80,6 +80,15 @@ class Ctx:
             return False
         return True
 
+    def liveness(self, module, constants, properties, workers=8, heap="6g"):
+        """Termination (and the action properties that are its reason) under weak fairness; the same run WITHOUT fairness must be refuted
+        (stuttering), which shows TLC really evaluated the temporal formula."""
+        from . import tlc
+        r = tlc.run_tlc(module, workers=workers, spec="FairSpec", constants=constants, properties=properties, heap=heap, timeout=7200)
+        self.model("%s liveness under WF %s %s" % (module, constants, properties), r, constants=constants)
+        r = tlc.run_tlc(module, workers=workers, spec="Spec", constants=constants, properties=["Termination"], heap=heap, timeout=7200)
+        self.model("%s Termination without fairness (must be refuted)" % module, r, expect_violation="Termination", constants=constants)
+
     # ---- verdict bookkeeping
     def count(self, n=1, key=None, nontrivial=True):
         self.evaluations += n
